@@ -124,7 +124,48 @@ Theorem C03_cancel_ping_body_ignored : forall st mt id p1 p2,
   handle_frame_no_relay st mt id p1 = handle_frame_no_relay st mt id p2.
 Proof. exact cancel_ping_body_ignored. Qed.
 
+(* ---- ping requests (repaired code: a draining connection answers pings) ----
+   TIE: whether a ping req is answered is decided by the state test that go2v regenerates from
+   the `if state := c.readState(); state == connectionClosed {` statement of
+   Connection.handlePingReq on every run (Gen/GenClose2.v pingReqAnswer: 1 = the ping res is
+   sent, 0 = protocolError) -- both in the model's step and in the specification [frame_legal] *)
+From Verif Require Import Gen.GenClose2.
+Theorem C03_ping_state_test_generated : forall st id,
+  handle_ping_req st id =
+  (if pingReqAnswer (cs_state st) =? 1
+   then (if cs_sendroom st >? 0 then (set_room (cs_sendroom st - 1) st, [SendFrame c_messageTypePingRes id 0])
+         else connection_error st)
+   else protocol_error st id).
+Proof. exact ping_state_test_generated. Qed.
+
+Theorem C03_ping_legal_generated : forall st id payload,
+  frame_legal st c_messageTypePingReq id payload = (pingReqAnswer (cs_state st) =? 1).
+Proof. exact ping_legal_generated. Qed.
+
+(* of the four connection states only Closed refuses a ping *)
+Theorem C03_ping_refused_only_closed :
+  pingReqAnswer c_connectionActive = 1 /\ pingReqAnswer c_connectionStartClose = 1 /\
+  pingReqAnswer c_connectionInboundClosed = 1 /\ pingReqAnswer c_connectionClosed = 0.
+Proof. exact ping_refused_only_closed. Qed.
+
+(* a ping req on a connection that is not Closed (Active, or draining after Close with whatever
+   calls in flight) and with room in the send queue has exactly one effect, the ping res with
+   the request's id, and changes nothing but the send queue: no exchange is failed, the close
+   state stays -- the peer's health check no longer tears a draining connection down *)
+Theorem C03_ping_answered_unless_closed : forall st id payload, cs_state st <> c_connectionClosed -> cs_sendroom st > 0 ->
+  handle_frame_no_relay st c_messageTypePingReq id payload
+  = (set_room (cs_sendroom st - 1) st, [SendFrame c_messageTypePingRes id 0]).
+Proof. exact ping_answered_unless_closed. Qed.
+
+(* a Closed connection refuses it: illegal frame, nothing sent, exchanges stopped *)
+Theorem C03_ping_refused_closed : forall st id payload, cs_state st = c_connectionClosed ->
+  snd (handle_frame_no_relay st c_messageTypePingReq id payload) = [CloseConn] /\
+  frame_legal st c_messageTypePingReq id payload = false.
+Proof. exact ping_refused_closed. Qed.
+
 Print Assumptions C03_no_panic.
+Print Assumptions C03_ping_state_test_generated.
+Print Assumptions C03_ping_answered_unless_closed.
 Print Assumptions C03_no_panic_stream.
 Print Assumptions C03_effects.
 Print Assumptions C03_error_frame.
@@ -158,6 +199,20 @@ Example C03_example_dropped :
   /\ snd (handle_frame (ex_active []) (ex_hdr 18 0x77 7) [1; 2]) = [Drop]
   /\ snd (handle_frame (ex_active []) (ex_hdr 15 3 7) ex_callreq) = [CloseConn].
 Proof. vm_compute. repeat split; reflexivity. Qed.
+
+(* ... a ping req while the connection drains after Close (call 5 in flight) is a legal frame
+   and is answered with a ping res; the state is untouched apart from the send queue ... *)
+Example C03_example_ping_draining :
+  handle_frame (mkCS c_connectionStartClose [(5, mx_new)] [] false 8 false) (ex_hdr 16 0xd0 9) []
+  = (mkCS c_connectionStartClose [(5, mx_new)] [] false 7 false, [SendFrame c_messageTypePingRes 9 0])
+  /\ frame_wf_legal (mkCS c_connectionStartClose [(5, mx_new)] [] false 8 false) (ex_hdr 16 0xd0 9) [] = true
+  /\ frame_wf_legal (mkCS c_connectionInboundClosed [] [(6, mx_new)] false 8 false) (ex_hdr 16 0xd0 9) [] = true.
+Proof. vm_compute. repeat split; reflexivity. Qed.
+(* ... on a Closed connection it is illegal and only shuts the (already closed) connection down *)
+Example C03_example_ping_closed :
+  snd (handle_frame (mkCS c_connectionClosed [] [] false 8 false) (ex_hdr 16 0xd0 9) []) = [CloseConn]
+  /\ frame_wf_legal (mkCS c_connectionClosed [] [] false 8 false) (ex_hdr 16 0xd0 9) [] = false.
+Proof. vm_compute. split; reflexivity. Qed.
 
 (* ======================================================================================
    Relay connections, ids re-used over time ("frames for ... duplicate ids" of the quantifier).
